@@ -70,9 +70,10 @@ Lemma text_example_all :
   parse_text_all keys_ex dec_ex (unlex (econc_all keys_ex enc_ex (erender_full etree_all_ex))) = Some etree_all_ex.
 Proof. vm_compute. repeat split; reflexivity. Qed.
 
-(* the side condition on the variable is needed: with `item` among the keys, `for item in b return c in d` is a tree of the extended Spec
-   whose text is not read back: consume_name returns `item` before it looks at till_in, the flag stays set, and the next name that is
-   followed by an `in` (here `b return c`) is cut at that `in` *)
+(* `item` as the variable of an iteration context.  With `item` among the keys, `for item in b return c in d` is a tree of the extended Spec;
+   before the repair of consume_name its text was not read back: consume_name returned `item` before it looked at till_in, the flag stayed
+   set, and the next name that is followed by an `in` (here `b return c`) was cut at that `in` (lex_b_orig, parse_text_all_orig).  Now the
+   `item` branch clears the flag and the tree is read back like any other (it meets names_all: an instance of text_roundtrip_min_all) *)
 Definition keys_item : list str := [[97]; [98]; [99]; [100]; NM.str_item]%N.
 Definition enc_item (a : N) : ltoken := if N.odd a then LName (nth_str keys_item (a / 2)) else enc_unary (a / 2).
 Definition dec_item (l : ltoken) : option N :=
@@ -83,11 +84,14 @@ Definition dec_item (l : ltoken) : option N :=
 Definition etree_item : etree := EFor (4%N, EAtom 3, None) [] (EBin InOp (EAtom 5) (EAtom 7)).
 
 Lemma text_item_witness :
-  keys_ok keys_item = true /\ eflag_ok false (erender_min etree_item) = true /\ forallb (names_all keys_item) (erender_min etree_item) = false /\
+  keys_ok keys_item = true /\ eflag_ok false (erender_min etree_item) = true /\ forallb (names_all keys_item) (erender_min etree_item) = true /\
   eparse_tokens (erender_min etree_item) = Some etree_item /\
   unlex (econc_all keys_item enc_item (erender_min etree_item)) =
     [102; 111; 114; 32; 105; 116; 101; 109; 32; 105; 110; 32; 98; 32; 114; 101; 116; 117; 114; 110; 32; 99; 32; 105; 110; 32; 100; 32]%N /\
-  lex_b keys_item (unlex (econc_all keys_item enc_item (erender_min etree_item))) =
+  lex_b_orig keys_item (unlex (econc_all keys_item enc_item (erender_min etree_item))) =
     Some [LKw KFor; LName NM.str_item; LKw KIn; LName [98; 32; 114; 101; 116; 117; 114; 110; 32; 99]; LKw KIn; LName [100]]%N /\
-  parse_text_all keys_item dec_item (unlex (econc_all keys_item enc_item (erender_min etree_item))) = None.
+  parse_text_all_orig keys_item dec_item (unlex (econc_all keys_item enc_item (erender_min etree_item))) = None /\
+  lex_b keys_item (unlex (econc_all keys_item enc_item (erender_min etree_item))) =
+    Some [LKw KFor; LName NM.str_item; LKw KIn; LName [98]; LKw KReturn; LName [99]; LKw KIn; LName [100]]%N /\
+  parse_text_all keys_item dec_item (unlex (econc_all keys_item enc_item (erender_min etree_item))) = Some etree_item.
 Proof. vm_compute. repeat split; reflexivity. Qed.
